@@ -107,8 +107,8 @@ func verifDebPayload(o scen.Options) {
 	}
 }
 
-// Verif_C01_C_DebSources_Thorough: a tree, a directory source expanded by the glob model, an on-disk symlink.
-func Verif_C01_C_DebSources_Thorough() { verifDebPayload(scen.Options{Second: -4}) }
+// Verif_C01_C_DebSources: a tree, a directory source expanded by the glob model, an on-disk symlink.
+func Verif_C01_C_DebSources() { verifDebPayload(scen.Options{Second: -4}) }
 
 // Verif_C01_C_DebAll_Thorough: modes, umask, owners, content, destination and entry type symbolic at once.
 func Verif_C01_C_DebAll_Thorough() {
